@@ -7,7 +7,9 @@ CONFIRM=0; if [ "$1" = "confirm" ]; then CONFIRM=1; shift; fi
 CHECKS="$@"; [ "$CHECKS" = "all" ] && CHECKS="C01 C02 C03 C04 C05 C06 C07 C08 C09 C10 C11 C12 C13 C14 C15 C16 C17 C18 C19"
 export GOFLAGS=-mod=mod GOPROXY=off GOSUMDB=off GOTOOLCHAIN=local
 D=$(mktemp -d /tmp/mrepo.XXXXXX)
-trap 'rm -rf "$D"; rm -f /verif/.build/bin/*-????????.test /verif/.build/alt-*' EXIT
+VERIF_HOME=$(cd "$(dirname "$(readlink -f "$0")")/.." && pwd)
+TAG=$(python3 -c 'import sys,zlib; print("%08x" % (zlib.crc32(sys.argv[1].encode()) & 0xFFFFFFFF))' "$D")
+trap 'rm -rf "$D" "$D".*.log; rm -f "$VERIF_HOME"/.build/bin/*-$TAG.test "$VERIF_HOME"/.build/alt-$TAG.*; rm -rf "$VERIF_HOME"/.build/out-$TAG' EXIT
 if [ -n "$SEED_BASE" ]; then git -C /repo archive "$SEED_BASE" | tar -x -C "$D"; else rsync -a --exclude .git /repo/ "$D"/; fi
 demo_pkg() { # package dir of the demo, from its package clause / meta
   local f="$DIR/demo_test.go"; local pk=$(grep -m1 '^package ' "$f" | awk '{print $2}')
@@ -15,21 +17,21 @@ demo_pkg() { # package dir of the demo, from its package clause / meta
 }
 if [ $CONFIRM = 1 ] && [ -f "$DIR/demo_test.go" ]; then
   PK=$(demo_pkg); cp "$DIR/demo_test.go" "$D/$PK/zz_seed_demo_test.go"
-  ( cd "$D/$PK" && go test -count=1 -run "$(grep -o 'func Test[A-Za-z0-9_]*' zz_seed_demo_test.go | sed 's/func //' | paste -sd'|')" . >/tmp/seed_demo_clean.log 2>&1 ) && echo "demo on unchanged tree: PASS (expected)" || { echo "demo on unchanged tree: FAIL (seed rejected)"; tail -15 /tmp/seed_demo_clean.log; }
+  ( cd "$D/$PK" && go test -count=1 -run "$(grep -o 'func Test[A-Za-z0-9_]*' zz_seed_demo_test.go | sed 's/func //' | paste -sd'|')" . >"$D".demo_clean.log 2>&1 ) && echo "demo on unchanged tree: PASS (expected)" || { echo "demo on unchanged tree: FAIL (seed rejected)"; tail -15 "$D".demo_clean.log; }
   rm -f "$D/$PK/zz_seed_demo_test.go"
 fi
 ( cd "$D" && patch -s -p1 < "$DIR/patch.diff" ) || { echo "PATCH DOES NOT APPLY"; exit 3; }
 ( cd "$D" && go build ./... ) || { echo "PATCHED TREE DOES NOT BUILD"; exit 3; }
 if [ $CONFIRM = 1 ]; then
-  ok=1; for i in 1 2; do ( cd "$D" && go test -count=1 ./... >/tmp/seed_base.log 2>&1 ) || { grep -q "commands.Result is nil, not uint" /tmp/seed_base.log || ok=0; }; done
-  [ $ok = 1 ] && echo "baseline with patch: PASS (expected)" || { echo "baseline with patch: FAIL (seed rejected)"; grep -v '^ok' /tmp/seed_base.log | head -20; }
+  ok=1; for i in 1 2; do ( cd "$D" && go test -count=1 ./... >"$D".base.log 2>&1 ) || { grep -q "commands.Result is nil, not uint" "$D".base.log || ok=0; }; done
+  [ $ok = 1 ] && echo "baseline with patch: PASS (expected)" || { echo "baseline with patch: FAIL (seed rejected)"; grep -v '^ok' "$D".base.log | head -20; }
   if [ -f "$DIR/demo_test.go" ]; then
     PK=$(demo_pkg); cp "$DIR/demo_test.go" "$D/$PK/zz_seed_demo_test.go"
-    ( cd "$D/$PK" && go test -count=1 -race -run "$(grep -o 'func Test[A-Za-z0-9_]*' zz_seed_demo_test.go | sed 's/func //' | paste -sd'|')" . >/tmp/seed_demo_patched.log 2>&1 ) && echo "demo with patch: PASS (seed does not demonstrate a violation?)" || echo "demo with patch: FAIL (expected)"
+    ( cd "$D/$PK" && go test -count=1 -race -run "$(grep -o 'func Test[A-Za-z0-9_]*' zz_seed_demo_test.go | sed 's/func //' | paste -sd'|')" . >"$D".demo_patched.log 2>&1 ) && echo "demo with patch: PASS (seed does not demonstrate a violation?)" || echo "demo with patch: FAIL (expected)"
     rm -f "$D/$PK/zz_seed_demo_test.go"
   fi
 fi
-cd /verif
+cd "$VERIF_HOME"
 for c in $CHECKS; do
   OUT=$(VERIF_REPO="$D" ./check $c quick 2>&1); rc=$?
   echo "check $c: exit=$rc $(echo "$OUT" | grep -m1 -A1 '^VIOLATION' | tail -1 | cut -c1-260)"
